@@ -32,7 +32,7 @@ def fromFunction_for3 (o : FromFunction.Oracle) (order : Nat) : List Nat → Boo
 
 /-- `while not found_ode and order < max_order:` of `from_function` (fuel = maximal number of iterations) -/
 def fromFunction_while2 (o : FromFunction.Oracle) (max_t : Nat) (max_order : Nat) : Nat → Nat → Bool → Except FromFunction.Err ((Nat × Bool))
-  | 0, _, _ => .error FromFunction.Err.noOde
+  | 0, _, _ => Except.error FromFunction.Err.noOde
   | fuel + 1, order, found_ode =>
     if ((found_ode = false) ∧ (order < max_order)) then
       let order : Nat := (order + 1)
@@ -43,26 +43,26 @@ def fromFunction_while2 (o : FromFunction.Oracle) (max_t : Nat) (max_order : Nat
       else
         if (o.verifies order = true) then
           let found_ode : Bool := true
-          .ok (order, found_ode)
+          Except.ok (order, found_ode)
         else
           fromFunction_while2 o max_t max_order fuel order found_ode
-    else .ok (order, found_ode)
+    else Except.ok (order, found_ode)
 
 /-- `from_function` -- the control flow of the order search; every SymPy step is an oracle answer (`o.nonzeroAt t`, `o.order1Verifies`, `o.invertibleAt order t`, `o.verifies order`), the statements that only compute SymPy objects are dropped verbatim (an edit of any of them makes the translation fail); the value returned is the order of the shape that is constructed -/
 def fromFunction (fuel : Nat) (o : FromFunction.Oracle) (max_t : Nat) (max_order : Nat) : Except FromFunction.Err (Nat) :=
   let t_val : Option Nat := none
   let t_val := fromFunction_for1 o (List.range max_t) t_val
   if (t_val.isNone = true) then
-    .error FromFunction.Err.noNonzeroSample
+    Except.error FromFunction.Err.noNonzeroSample
   else
     let order : Nat := 1
     let found_ode : Bool := o.order1Verifies
     match fromFunction_while2 o max_t max_order fuel order found_ode with
-    | .error e__ => .error e__
-    | .ok (order, found_ode) =>
+    | Except.error e__ => Except.error e__
+    | Except.ok (order, found_ode) =>
       if (found_ode = false) then
-        .error FromFunction.Err.noOde
+        Except.error FromFunction.Err.noOde
       else
-        .ok order
+        Except.ok order
 
 end OdeVerif.Generated
